@@ -676,3 +676,534 @@ Section Sound.
     apply orb_true_iff in He. destruct He as [He|He]; apply String.eqb_eq in He; auto.
   Qed.
 End Sound.
+
+(* ------------------------------------------------------------------ *)
+(** * (c) Interleavings of threads *)
+
+(* A thread is the access trace of a call (by [exec_heap_irrelevant] below
+   the set of traces of a call does not depend on the heap contents, so a
+   trace obtained by running the call alone is also a behaviour of the call
+   inside any interleaving).  Threads are indexed by nat; thread i has trace
+   [trs i] ([] for all but finitely many i: any number of goroutines).
+   A schedule is a list of thread ids; scheduling thread i executes its next
+   event atomically on the shared heap. *)
+
+Definition foot (tr : list event) : list cell := (reads_of tr ++ writes_of tr)%list.
+
+(* remaining events, values observed so far (most recent first) *)
+Definition tstate := (list event * list Z)%type.
+
+Definition step_thread (h : cell -> Z) (ts : tstate) : (cell -> Z) * tstate :=
+  match fst ts with
+  | [] => (h, ts)
+  | EvR c :: t => (h, (t, h c :: snd ts))
+  | EvW c v :: t => (upd h c v, (t, snd ts))
+  | EvF _ _ :: t => (h, (t, snd ts))
+  end.
+
+Definition set_thread (tss : nat -> tstate) (i : nat) (ts : tstate) : nat -> tstate :=
+  fun j => if Nat.eqb j i then ts else tss j.
+
+Fixpoint run_sched (sch : list nat) (h : cell -> Z) (tss : nat -> tstate)
+  : (cell -> Z) * (nat -> tstate) :=
+  match sch with
+  | [] => (h, tss)
+  | i :: sch' =>
+      let (h', ts') := step_thread h (tss i) in
+      run_sched sch' h' (set_thread tss i ts')
+  end.
+
+Definition init_threads (trs : nat -> list event) : nat -> tstate := fun i => (trs i, []).
+
+(* all threads have run to completion *)
+Definition complete (tss : nat -> tstate) : Prop := forall i, fst (tss i) = [].
+
+(* no cell is written by one thread and accessed (read or written) by another *)
+Definition race_free_tr (trs : nat -> list event) : Prop :=
+  forall i j c, i <> j -> In c (writes_of (trs i)) -> ~ In c (foot (trs j)).
+
+Lemma obs_app : forall a b h, obs (a ++ b) h = (obs a h ++ obs b (apply_tr a h))%list.
+Proof.
+  induction a as [|[c|c v|f rs] a IH]; intros b h; simpl; auto.
+  rewrite IH. reflexivity.
+Qed.
+
+Lemma foot_app_r : forall p r c, In c (foot r) -> In c (foot (p ++ r)).
+Proof.
+  unfold foot; intros p r c H. rewrite reads_of_app, writes_of_app.
+  apply in_app_or in H. apply in_or_app.
+  destruct H; [left|right]; apply in_or_app; auto.
+Qed.
+
+(* invariant of a partial interleaved execution *)
+Definition il_inv (trs : nat -> list event) (h0 h : cell -> Z) (tss : nat -> tstate) : Prop :=
+  (forall i, exists p, trs i = (p ++ fst (tss i))%list /\
+                       snd (tss i) = rev (obs p h0) /\
+                       forall c, In c (foot (trs i)) -> h c = apply_tr p h0 c) /\
+  (forall c, (forall i, ~ In c (writes_of (trs i))) -> h c = h0 c).
+
+Lemma il_inv_init : forall trs h0, il_inv trs h0 h0 (init_threads trs).
+Proof.
+  intros trs h0; split; [|auto].
+  intros i. exists []. simpl. auto.
+Qed.
+
+Lemma in_writes_mid : forall p c v t, In c (writes_of (p ++ EvW c v :: t)).
+Proof. intros. rewrite writes_of_app. apply in_or_app; right; simpl; auto. Qed.
+Lemma in_reads_mid : forall p c t, In c (reads_of (p ++ EvR c :: t)).
+Proof. intros. rewrite reads_of_app. apply in_or_app; right; simpl; auto. Qed.
+
+Lemma il_step : forall trs h0 h tss i h' ts',
+    race_free_tr trs -> il_inv trs h0 h tss ->
+    step_thread h (tss i) = (h', ts') ->
+    il_inv trs h0 h' (set_thread tss i ts').
+Proof.
+  intros trs h0 h tss i h' ts' Hrf [Hth Hunw] Hstep.
+  destruct (Hth i) as [p [Hsplit [Hobs Hfoot]]].
+  unfold step_thread in Hstep.
+  destruct (fst (tss i)) as [|[c|c v|f rs] t] eqn:Hrem;
+    inversion Hstep; subst h' ts'; clear Hstep.
+  - (* nothing left: stutter *)
+    split; [|exact Hunw]. intros j. unfold set_thread.
+    destruct (Nat.eqb_spec j i); [subst j|]; apply Hth.
+  - (* read *)
+    split; [|exact Hunw]. intros j. unfold set_thread.
+    destruct (Nat.eqb_spec j i); [subst j|apply Hth].
+    exists (p ++ [EvR c])%list. simpl. repeat split.
+    + rewrite <- app_assoc. exact Hsplit.
+    + rewrite obs_app. simpl. rewrite rev_app_distr. simpl.
+      rewrite Hobs. f_equal. apply Hfoot. rewrite Hsplit.
+      unfold foot. apply in_or_app; left. apply in_reads_mid.
+    + intros c' Hc'. rewrite apply_tr_app. simpl. apply Hfoot, Hc'.
+  - (* write *)
+    assert (Hw : In c (writes_of (trs i))) by (rewrite Hsplit; apply in_writes_mid).
+    split.
+    + intros j. unfold set_thread.
+      destruct (Nat.eqb_spec j i); [subst j|].
+      * exists (p ++ [EvW c v])%list. simpl. repeat split.
+        -- rewrite <- app_assoc. exact Hsplit.
+        -- rewrite obs_app. simpl. rewrite app_nil_r. exact Hobs.
+        -- intros c' Hc'. rewrite apply_tr_app. simpl. unfold upd.
+           destruct (Nat.eqb c' c); [reflexivity|apply Hfoot, Hc'].
+      * destruct (Hth j) as [pj [Hsj [Hoj Hfj]]].
+        exists pj. repeat split; auto.
+        intros c' Hc'. rewrite upd_other; [apply Hfj, Hc'|].
+        intros ->. exact (Hrf i j c (fun E => n (eq_sym E)) Hw Hc').
+    + intros c' Hc'. rewrite upd_other; [apply Hunw, Hc'|].
+      intros ->. exact (Hc' i Hw).
+  - (* field-store marker *)
+    split; [|exact Hunw]. intros j. unfold set_thread.
+    destruct (Nat.eqb_spec j i); [subst j|apply Hth].
+    exists (p ++ [EvF f rs])%list. simpl. repeat split.
+    + rewrite <- app_assoc. exact Hsplit.
+    + rewrite obs_app. simpl. rewrite app_nil_r. exact Hobs.
+    + intros c' Hc'. rewrite apply_tr_app. simpl. apply Hfoot, Hc'.
+Qed.
+
+Lemma il_run : forall trs h0, race_free_tr trs ->
+    forall sch h tss h' tss',
+      il_inv trs h0 h tss -> run_sched sch h tss = (h', tss') ->
+      il_inv trs h0 h' tss'.
+Proof.
+  intros trs h0 Hrf. induction sch as [|i sch IH]; intros h tss h' tss' Hinv Hrun; simpl in Hrun.
+  - inversion Hrun; subst; exact Hinv.
+  - destruct (step_thread h (tss i)) as [h1 ts1] eqn:Hs.
+    eapply IH; [|exact Hrun]. eapply il_step; eassumption.
+Qed.
+
+(* For EVERY schedule that runs all threads to completion: each thread has
+   observed exactly the values it observes when run alone from the initial
+   heap, every cell in the footprint of thread i ends with the value it has
+   after running thread i alone, and cells written by no thread are
+   unchanged. *)
+Theorem schedule_independent : forall trs h0 sch h' tss',
+    race_free_tr trs ->
+    run_sched sch h0 (init_threads trs) = (h', tss') ->
+    complete tss' ->
+    (forall i, rev (snd (tss' i)) = obs (trs i) h0) /\
+    (forall i c, In c (foot (trs i)) -> h' c = apply_tr (trs i) h0 c) /\
+    (forall c, (forall i, ~ In c (writes_of (trs i))) -> h' c = h0 c).
+Proof.
+  intros trs h0 sch h' tss' Hrf Hrun Hc.
+  destruct (il_run _ _ Hrf _ _ _ _ _ (il_inv_init trs h0) Hrun) as [Hth Hunw].
+  repeat split; auto.
+  - intros i. destruct (Hth i) as [p [Hs [Ho _]]].
+    rewrite (Hc i), app_nil_r in Hs. subst p. rewrite Ho, rev_involutive. reflexivity.
+  - intros i c Hin. destruct (Hth i) as [p [Hs [_ Hf]]].
+    rewrite (Hc i), app_nil_r in Hs. subst p. apply Hf, Hin.
+Qed.
+
+(** ** The sequential schedule (threads one after another) is a schedule *)
+
+Lemma run_sched_app : forall a b h tss,
+    run_sched (a ++ b) h tss =
+    let (h1, t1) := run_sched a h tss in run_sched b h1 t1.
+Proof.
+  induction a as [|i a IH]; intros b h tss; simpl; [reflexivity|].
+  destruct (step_thread h (tss i)) as [h1 ts1]. apply IH.
+Qed.
+
+Lemma step_thread_len : forall h ts h' ts',
+    step_thread h ts = (h', ts') -> length (fst ts') <= pred (length (fst ts)) \/ (fst ts = [] /\ ts' = ts).
+Proof.
+  intros h [rem o] h' ts' H. unfold step_thread in H. simpl in *.
+  destruct rem as [|[c|c v|f rs] t]; inversion H; subst; simpl; auto.
+Qed.
+
+Lemma run_repeat : forall i k h tss h' tss',
+    run_sched (repeat i k) h tss = (h', tss') ->
+    length (fst (tss i)) <= k ->
+    fst (tss' i) = [] /\ (forall j, j <> i -> tss' j = tss j).
+Proof.
+  intros i. induction k as [|k IH]; intros h tss h' tss' Hrun Hlen; simpl in Hrun.
+  - inversion Hrun; subst. split; [|auto].
+    destruct (fst (tss' i)); [reflexivity|simpl in Hlen; lia].
+  - destruct (step_thread h (tss i)) as [h1 ts1] eqn:Hs.
+    destruct (IH _ _ _ _ Hrun) as [He Ho].
+    + unfold set_thread. rewrite Nat.eqb_refl.
+      destruct (step_thread_len _ _ _ _ Hs) as [Hl|[Hn ->]]; [lia|rewrite Hn; simpl; lia].
+    + split; [exact He|]. intros j Hj. rewrite (Ho j Hj). unfold set_thread.
+      destruct (Nat.eqb_spec j i); [contradiction|reflexivity].
+Qed.
+
+Fixpoint seq_sched (trs : nat -> list event) (n : nat) : list nat :=
+  match n with
+  | 0 => []
+  | S n => (seq_sched trs n ++ repeat n (length (trs n)))%list
+  end.
+
+Lemma seq_sched_runs : forall trs n h0 h' tss',
+    run_sched (seq_sched trs n) h0 (init_threads trs) = (h', tss') ->
+    (forall i, i < n -> fst (tss' i) = []) /\
+    (forall j, n <= j -> tss' j = init_threads trs j).
+Proof.
+  intros trs. induction n as [|n IH]; intros h0 h' tss' Hrun; simpl in Hrun.
+  - inversion Hrun; subst. split; [intros; lia|auto].
+  - rewrite run_sched_app in Hrun.
+    destruct (run_sched (seq_sched trs n) h0 (init_threads trs)) as [h1 t1] eqn:H1.
+    destruct (IH _ _ _ H1) as [Hdone Hrest].
+    destruct (run_repeat _ _ _ _ _ _ Hrun) as [He Ho].
+    + rewrite (Hrest n (le_n n)). simpl. lia.
+    + split.
+      * intros i Hi. destruct (Nat.eq_dec i n) as [->|Hne]; [exact He|].
+        rewrite (Ho i Hne). apply Hdone. lia.
+      * intros j Hj. rewrite (Ho j) by lia. apply Hrest. lia.
+Qed.
+
+Lemma seq_sched_complete : forall trs n h0 h' tss',
+    (forall i, n <= i -> trs i = []) ->
+    run_sched (seq_sched trs n) h0 (init_threads trs) = (h', tss') ->
+    complete tss'.
+Proof.
+  intros trs n h0 h' tss' Hfin Hrun i.
+  destruct (seq_sched_runs _ _ _ _ _ Hrun) as [Hd Hr].
+  destruct (Nat.lt_ge_cases i n) as [Hlt|Hge]; [apply Hd, Hlt|].
+  rewrite (Hr i Hge). simpl. apply Hfin, Hge.
+Qed.
+
+(* Any complete interleaving of n race-free threads produces, for every
+   thread, the same observations, and on every cell the same final value,
+   as running the threads one after another (thread 0, then 1, ...). *)
+Theorem interleaving_equals_sequential : forall trs n h0 sch h1 tss1 h2 tss2,
+    race_free_tr trs -> (forall i, n <= i -> trs i = []) ->
+    run_sched sch h0 (init_threads trs) = (h1, tss1) -> complete tss1 ->
+    run_sched (seq_sched trs n) h0 (init_threads trs) = (h2, tss2) ->
+    (forall i, snd (tss1 i) = snd (tss2 i)) /\ (forall c, h1 c = h2 c).
+Proof.
+  intros trs n h0 sch h1 tss1 h2 tss2 Hrf Hfin Hr1 Hc1 Hr2.
+  pose proof (seq_sched_complete _ _ _ _ _ Hfin Hr2) as Hc2.
+  destruct (schedule_independent _ _ _ _ _ Hrf Hr1 Hc1) as (O1 & F1 & U1).
+  destruct (schedule_independent _ _ _ _ _ Hrf Hr2 Hc2) as (O2 & F2 & U2).
+  split.
+  - intros i. rewrite <- (rev_involutive (snd (tss1 i))), <- (rev_involutive (snd (tss2 i))).
+    rewrite O1, O2. reflexivity.
+  - intros c.
+    assert (Hdec0 : forall m, (exists i, i < m /\ In c (writes_of (trs i))) \/
+                              (forall i, i < m -> ~ In c (writes_of (trs i)))).
+    { induction m as [|m IH].
+      - right. intros i Hi. lia.
+      - destruct (in_dec Nat.eq_dec c (writes_of (trs m))) as [Hin|Hnin].
+        + left. exists m; split; [lia|exact Hin].
+        + destruct IH as [[i [Hi Hin]]|Hall].
+          * left. exists i; split; [lia|exact Hin].
+          * right. intros i Hi. destruct (Nat.eq_dec i m) as [->|Hne]; [exact Hnin|apply Hall; lia]. }
+    assert (Hdec : (exists i, i < n /\ In c (writes_of (trs i))) \/
+                   (forall i, ~ In c (writes_of (trs i)))).
+    { destruct (Hdec0 n) as [He|Hall]; [left; exact He|right].
+      intros i. destruct (Nat.lt_ge_cases i n) as [Hlt|Hge]; [apply Hall, Hlt|].
+      rewrite Hfin by exact Hge. simpl. tauto. }
+    destruct Hdec as [[i [_ Hin]]|Hall].
+    + assert (Hf : In c (foot (trs i))) by (unfold foot; apply in_or_app; right; exact Hin).
+      rewrite (F1 i c Hf), (F2 i c Hf). reflexivity.
+    + rewrite (U1 c Hall), (U2 c Hall). reflexivity.
+Qed.
+
+(* ------------------------------------------------------------------ *)
+(** ** Linking traces with the semantics *)
+
+Lemma apply_tr_reads_eq : forall cs h, apply_tr (map EvR cs) h = h.
+Proof. induction cs; simpl; auto. Qed.
+Lemma apply_tr_writes_eq : forall cs h, apply_tr (ev_writes cs) h = wr_all h cs.
+Proof. unfold wr_all. induction cs as [|[c v] cs IH]; intros h; simpl; auto. Qed.
+
+Section Replay.
+  Variable tbl : fn_table.
+  Variable gl : string -> region.
+
+  (* the final heap of a run is the replay of its trace *)
+  Lemma exec_replay : forall n ps s body s' tr ret,
+      exec tbl gl n ps s body s' tr ret ->
+      forall c, sh s' c = apply_tr tr (sh s) c.
+  Proof.
+    intros n ps s body s' tr ret Hex.
+    induction Hex; intros c; simpl; auto.
+    - rewrite apply_tr_app, apply_tr_reads_eq. apply IHHex.
+    - rewrite apply_tr_app, apply_tr_writes_eq. apply IHHex.
+    - rewrite apply_tr_app, IHHex2. simpl. apply apply_tr_ext. exact IHHex1.
+  Qed.
+
+  (* the traces (and returned regions) of a body do not depend on the heap
+     contents: whatever other threads have written, the same trace is a
+     behaviour of the call *)
+  Lemma exec_heap_irrelevant : forall n ps s body s' tr ret,
+      exec tbl gl n ps s body s' tr ret ->
+      forall h2, exists h2',
+        exec tbl gl n ps (mkst h2 (sn s) (sl s)) body (mkst h2' (sn s') (sl s')) tr ret.
+  Proof.
+    intros n ps s body s' tr ret Hex.
+    induction Hex; intros h2.
+    - exists h2. constructor.
+    - destruct (IHHex h2) as [h2' H2]. exists h2'. constructor. exact H2.
+    - destruct (IHHex (upd h2 (sn s) v)) as [h2' H2]. exists h2'.
+      apply (ex_alloc tbl gl n ps (mkst h2 (sn s) (sl s)) b k rest _ tr r v). exact H2.
+    - destruct (IHHex h2) as [h2' H2]. exists h2'.
+      apply (ex_read tbl gl n ps (mkst h2 (sn s) (sl s)) b rs cs rest _ tr r); assumption.
+    - destruct (IHHex (wr_all h2 cs)) as [h2' H2]. exists h2'.
+      apply (ex_write tbl gl n ps (mkst h2 (sn s) (sl s)) b rs fld cs rest _ tr r); assumption.
+    - exists h2.
+      apply (ex_return tbl gl n ps (mkst h2 (sn s) (sl s)) b d rr rest).
+    - destruct (IHHex1 h2) as [h1' H1]. destruct (IHHex2 h1') as [h2' H2].
+      exists h2'.
+      eapply (ex_call tbl gl n ps (mkst h2 (sn s) (sl s)) b f args k hint rest body
+                      (mkst h1' (sn s1) (sl s1)) tr1 r1 _ tr2 r); eauto.
+  Qed.
+End Replay.
+
+(* ------------------------------------------------------------------ *)
+(** ** Threads running pure functions are race free *)
+
+Section Threads.
+  Variable tbl : fn_table.
+  Variable gl : string -> region.
+  Variable d : dests.
+
+  (* A thread: a call of [th_f] on argument regions [th_ps]; [th_tr] is a
+     trace of that call run alone from the common initial heap, allocating in
+     the thread's own arena [th_lo, th_hi).
+     ASSUMPTION (allocator / sync.Pool): an allocation, or a sync.Pool.Get,
+     hands out a cell that no other thread can access until it is released;
+     this is modelled by the disjoint arenas.  The ff package's bigIntPool
+     lives inside ff, which is not translated. *)
+  Record thread := mkthread {
+    th_f : string; th_ps : list region; th_lo : nat; th_hi : nat; th_tr : list event }.
+
+  Definition th_dest (t : thread) : region := dest_cells (th_ps t) (dest_of d (th_f t)).
+
+  Definition thread_ok (h0 : cell -> Z) (nx0 : nat) (t : thread) : Prop :=
+    pure_fn tbl d (th_f t) = true /\
+    nx0 <= th_lo t /\
+    (forall c, acc gl (th_ps t) c -> c < nx0) /\
+    exists n h' ret, run tbl gl n (th_f t) (th_ps t) h0 (th_lo t) h' (th_hi t) (th_tr t) ret.
+
+  Definition trs_of (ths : nat -> option thread) : nat -> list event :=
+    fun i => match ths i with Some t => th_tr t | None => [] end.
+
+  Lemma dest_acc : forall ps dst c, dest_cells ps dst c -> acc gl ps c.
+  Proof. intros ps dst c [i [_ Hd]]. left; exists i; exact Hd. Qed.
+
+  (* n threads (any n), each running a pure function; the arguments and the
+     globals are old cells shared by all threads; each thread allocates in
+     its own arena; the documented destination of a thread is private: no
+     other thread can reach it from its arguments or from a global.  Then no
+     cell is written by one thread and accessed by another. *)
+  Theorem race_free : forall h0 nx0 (ths : nat -> option thread),
+      (forall i t, ths i = Some t -> thread_ok h0 nx0 t) ->
+      (forall i j ti tj, i <> j -> ths i = Some ti -> ths j = Some tj ->
+                         th_hi ti <= th_lo tj \/ th_hi tj <= th_lo ti) ->
+      (forall i j ti tj, i <> j -> ths i = Some ti -> ths j = Some tj ->
+                         forall c, th_dest ti c -> ~ acc gl (th_ps tj) c) ->
+      race_free_tr (trs_of ths).
+  Proof.
+    intros h0 nx0 ths Hok Har Hpriv i j c Hij Hw Hf.
+    unfold trs_of in *.
+    destruct (ths i) as [ti|] eqn:Ei; [|simpl in Hw; contradiction].
+    destruct (ths j) as [tj|] eqn:Ej; [|simpl in Hf; contradiction].
+    destruct (Hok i ti Ei) as (Hpi & Hloi & Holdi & ni & hi' & ri & Hri).
+    destruct (Hok j tj Ej) as (Hpj & Hloj & Holdj & nj & hj' & rj & Hrj).
+    destruct (pure_fn_sound _ _ _ _ Hpi _ _ _ _ _ _ _ _ Hri) as (_ & _ & Wi & _).
+    destruct (pure_fn_sound _ _ _ _ Hpj _ _ _ _ _ _ _ _ Hrj) as (_ & _ & _ & Aj).
+    specialize (Wi c Hw). specialize (Aj c Hf).
+    destruct Wi as [Fi|Di]; destruct Aj as [Fj|Aj].
+    - destruct (Har i j ti tj Hij Ei Ej); lia.
+    - specialize (Holdj c Aj). lia.
+    - apply dest_acc in Di. specialize (Holdi c Di). lia.
+    - exact (Hpriv i j ti tj Hij Ei Ej c Di Aj).
+  Qed.
+
+  (* Putting (a) and (c) together: for every complete schedule of such
+     threads, every thread observes what it observes alone, its footprint
+     (in particular its private destination and its fresh results) ends as
+     when it runs alone, and all other cells - shared arguments, globals -
+     are unchanged. *)
+  Corollary concurrent_pure_calls : forall h0 nx0 ths sch h' tss',
+      (forall i t, ths i = Some t -> thread_ok h0 nx0 t) ->
+      (forall i j ti tj, i <> j -> ths i = Some ti -> ths j = Some tj ->
+                         th_hi ti <= th_lo tj \/ th_hi tj <= th_lo ti) ->
+      (forall i j ti tj, i <> j -> ths i = Some ti -> ths j = Some tj ->
+                         forall c, th_dest ti c -> ~ acc gl (th_ps tj) c) ->
+      run_sched sch h0 (init_threads (trs_of ths)) = (h', tss') ->
+      complete tss' ->
+      (forall i, rev (snd (tss' i)) = obs (trs_of ths i) h0) /\
+      (forall i c, In c (foot (trs_of ths i)) -> h' c = apply_tr (trs_of ths i) h0 c) /\
+      (forall c, (forall i, ~ In c (writes_of (trs_of ths i))) -> h' c = h0 c).
+  Proof.
+    intros. eapply schedule_independent; eauto. eapply race_free; eauto.
+  Qed.
+End Threads.
+
+(* ------------------------------------------------------------------ *)
+(** * Non-vacuity *)
+
+(* A table with an impure function: [caller] passes its parameter 1 to
+   [setter], which mutates it in place.  The analysis rejects it, and the
+   semantics really changes the caller-visible cell: the frame property of
+   [pure_fn_sound] fails for it. *)
+Definition bad_tbl : fn_table :=
+  [("setter", [(true, IWrite [RParam 0] "X")]);
+   ("caller", [(true, ICall "setter" [[RParam 1]] 0 [])])].
+
+Example bad_not_pure : pure_fn bad_tbl [] "caller" = false.
+Proof. reflexivity. Qed.
+
+Example bad_frame_violated :
+  exists h' tr,
+    run bad_tbl (fun _ => rempty) 1 "caller" [rempty; (fun c => c = 5)]
+        (fun _ => 0%Z) 10 h' 10 tr None /\
+    h' 5 <> 0%Z.
+Proof.
+  eexists. eexists. split.
+  - unfold run. eexists. eexists. split; [reflexivity|].
+    eapply ex_call with (s1 := mkst (wr_all (fun _ => 0%Z) [(5, 1%Z)]) 10 lempty).
+    + reflexivity.
+    + eapply (ex_write _ _ _ _ _ _ _ _ [(5, 1%Z)]).
+      * constructor; [|constructor]. simpl.
+        exists (RParam 0); split; [left; reflexivity|].
+        simpl. unfold denP. simpl. exists (RParam 1); split; [left; reflexivity|].
+        simpl. unfold denP. simpl. reflexivity.
+      * apply ex_nil.
+    + simpl. apply ex_nil.
+  - simpl. unfold wr_all, upd. simpl. discriminate.
+Qed.
+
+(* A small history: two pure readers around a call with a documented
+   destination, one of the readers taking its early (failing) return. *)
+Definition ex_tbl : fn_table :=
+  [("reader", [(true, IAlloc 0);
+               (true, IRead [RParam 0; RGlobal "G"]);
+               (false, IReturn [] []);
+               (true, IWrite [RLocal 0] "");
+               (true, IReturn [RLocal 0] [RLocal 0])]);
+   ("set", [(true, IRead [RParam 1]); (true, IWrite [RParam 0] "")])].
+Definition ex_dests : dests := [("set", [0])].
+Definition ex_gl : string -> region := fun g c => g = "G" /\ c = 2.
+Definition cellr (k : nat) : region := fun c => c = k.
+Definition ex_hist : list (call) :=
+  [("reader", [cellr 0]); ("set", [cellr 1; cellr 0]); ("reader", [cellr 0])].
+
+Example ex_hist_pure : forall h nx h' nx',
+    run_hist ex_tbl ex_gl ex_hist h nx h' nx' -> 3 <= nx ->
+    h' 0 = h 0 /\ h' 2 = h 2.
+Proof.
+  intros h nx h' nx' Hrun Hnx.
+  assert (Hall : all_pure ex_tbl ex_dests ex_hist).
+  { repeat constructor. }
+  destruct (history_pure ex_tbl ex_gl ex_dests _ _ _ _ _ Hall Hrun) as [_ Hf].
+  assert (Hnd : forall c, c <> 1 -> ~ hist_dest ex_dests ex_hist c).
+  { intros c Hc [f [ps [Hin [i [Hi Hd]]]]].
+    simpl in Hin. destruct Hin as [E|[E|[E|[]]]]; inversion E; subst; simpl in Hi;
+      try contradiction.
+    destruct Hi as [<-|[]]. unfold denP in Hd; simpl in Hd. unfold cellr in Hd. congruence. }
+  split; apply Hf; try lia; apply Hnd; lia.
+Qed.
+
+(* ... and such a history exists (the statement above is not vacuous) *)
+Example ex_hist_runs : exists h' nx',
+    run_hist ex_tbl ex_gl ex_hist (fun _ => 7%Z) 3 h' nx'.
+Proof.
+  eexists. eexists.
+  eapply rh_cons with (n := 0).
+  { unfold run. eexists. eexists. split; [reflexivity|].
+    eapply ex_alloc with (v := 0%Z). eapply ex_read with (cs := [0; 2]).
+    { repeat constructor; simpl.
+      - exists (RParam 0); split; [left; reflexivity|]. reflexivity.
+      - exists (RGlobal "G"); split; [right; left; reflexivity|]. split; reflexivity. }
+    (* the early, failing return *)
+    apply ex_return. }
+  eapply rh_cons with (n := 0).
+  { unfold run. eexists. eexists. split; [reflexivity|].
+    eapply ex_read with (cs := [0]).
+    { repeat constructor. exists (RParam 1); split; [left; reflexivity|]. reflexivity. }
+    eapply (ex_write _ _ _ _ _ _ _ _ [(1, 42%Z)]).
+    { repeat constructor. exists (RParam 0); split; [left; reflexivity|]. reflexivity. }
+    apply ex_nil. }
+  eapply rh_cons with (n := 0).
+  { unfold run. eexists. eexists. split; [reflexivity|].
+    eapply ex_alloc with (v := 0%Z). eapply ex_read with (cs := []); [constructor|].
+    apply ex_skip.
+    eapply (ex_write _ _ _ _ _ _ _ _ [(4, 9%Z)]).
+    { repeat constructor. exists (RLocal 0); split; [left; reflexivity|].
+      simpl. left. split; reflexivity. }
+    apply ex_return. }
+  apply rh_nil.
+Qed.
+
+(* Two threads reading a shared cell 0 and writing private cells 10 / 11,
+   under the schedule 0,1,1,0 *)
+Definition ex_trs : nat -> list event := fun i =>
+  match i with
+  | 0 => [EvR 0; EvW 10 5%Z]
+  | 1 => [EvR 0; EvW 11 6%Z]
+  | _ => []
+  end.
+
+Example ex_schedule :
+  let '(h', tss') := run_sched [0; 1; 1; 0] (fun _ => 3%Z) (init_threads ex_trs) in
+  complete tss' /\ h' 10 = 5%Z /\ h' 11 = 6%Z /\ h' 0 = 3%Z /\
+  snd (tss' 0) = [3%Z] /\ snd (tss' 1) = [3%Z].
+Proof.
+  simpl. repeat split.
+  intros [|[|i]]; reflexivity.
+Qed.
+
+Example ex_trs_race_free : race_free_tr ex_trs.
+Proof.
+  intros [|[|i]] [|[|j]] c Hij Hw Hf; simpl in *; try tauto; try lia;
+    unfold foot in Hf; simpl in Hf; intuition lia.
+Qed.
+
+(* ------------------------------------------------------------------ *)
+Print Assumptions call_sound.
+Print Assumptions pure_fn_sound.
+Print Assumptions no_global_write_sound.
+Print Assumptions history_pure.
+Print Assumptions history_same_inputs.
+Print Assumptions receiver_stored_sound.
+Print Assumptions schedule_independent.
+Print Assumptions interleaving_equals_sequential.
+Print Assumptions exec_replay.
+Print Assumptions exec_heap_irrelevant.
+Print Assumptions race_free.
+Print Assumptions concurrent_pure_calls.
+Print Assumptions bad_frame_violated.
+Print Assumptions ex_hist_pure.
+Print Assumptions ex_hist_runs.
